@@ -193,6 +193,12 @@ class C14(Check):
             'that infinity, NaN for both signs or a NaN; windows beside them must stay finite and right), width 0; medians and '
             'running medians with +-inf; uniq on runs of equal -inf/+inf, sorted bool, str, bytes and uint8 (0/255) arrays; '
             'rebin sample=True on +-inf/NaN and bool arrays; option flags given as bool, int or numpy bool, width as numpy int.  '
+            'rebin_bigfactor: one axis shrunk or enlarged by a factor 2..200 (every value both ways at thorough; at quick '
+            'every factor of a pool of float-fragile ones - 49, 93, 98, 99, 103, 105, 107, 117, 123, 186, 196, ... - both ways '
+            'plus a spread) on lengths factor*m, m=1..4, 1-D or as one axis of 2-D/3-D, sample on/off, int and float dtypes; '
+            'rebin_reject also asks for almost integral ratios at those sizes (98 -> 3, 99 -> 2, 3 -> 148).  Lengths 1 and 2, '
+            'a few long arrays (200-1000) and, for smooth without truncation, widths beyond the array (every point stays '
+            'untouched) are standing members.  '
             'stale_sequence: 2-4 calls inside one case sharing sizes (rebin: the same (n0, n) pair on any axis/rank with '
             'sample and interpolating calls in both orders; smooth/median/running median: same n and width with flags, dtype '
             'and data changed; uniq with and without index), each call judged by the same oracle.  Non-trivial: smooth with made-odd width >= 3 that changes a '
@@ -225,6 +231,12 @@ class C14(Check):
                          'smooth_finite_windows_next_to_nonfinite_values', 'smooth_width_0',
                          'median_inputs_with_infinities', 'run_inputs_with_infinities', 'rebin_sample_nonfinite_inputs',
                          'rebin_sample_bool_inputs', 'flag_given_as_int_or_numpy_bool',
+                         'rebin_shrink_factor_ge_49', 'rebin_expand_factor_ge_49', 'rebin_factor_ge_49_in_2d_or_3d',
+                         'rebin_factor_ge_49_integer_dtype', 'rebin_shrink_by_float_fragile_factor_sample',
+                         'rebin_shrink_by_float_fragile_factor_mean', 'rebin_valueerror_nonintegral_sizes_ge_49',
+                         'smooth_length_1_or_2', 'smooth_length_ge_200', 'smooth_width_beyond_n_all_points_untouched',
+                         'median_length_1_or_2', 'median_length_ge_200', 'run1d_length_1_or_2', 'run1d_length_ge_200',
+                         'uniq_length_1_or_2',
                          'rebin_lerp_fractional_positions', 'rebin_positions_exactly_on_a_sample',
                          'rebin_block_means', 'rebin_sample_calls', 'rebin_sample_fragile_pairs',
                          'rebin_mixed_expand_and_shrink', 'rebin_integer_dtype_cases',
@@ -280,6 +292,22 @@ class C14(Check):
             self._fragile = R.float_fragile_pairs(40, 70)
         return self._fragile
 
+    def fragile_factors(self):
+        """integral factors 2..200 for which a common floating-point 'is the ratio whole?' test goes wrong
+        (reciprocal does not round-trip, 1/f*f != 1, f*m/m inexact ...), plus a fixed list; generator aid only"""
+        if getattr(self, '_ffac', None) is None:
+            pool = {49, 93, 98, 99, 103, 105, 107, 117, 123, 186, 196, 200, 2, 3, 7, 64, 128}
+            for f in range(2, 201):
+                z = 1.0 / f
+                if 1.0 / z != f or z * f != 1.0 or int(1.0 / z) != f or round(f * z, 15) != 1.0:
+                    pool.add(f)
+                for m in (1, 2, 3, 4):
+                    zz = float(m) / float(f * m)
+                    if 1.0 / zz != f or int(1.0 / zz) != f or (f * m) * zz != m:
+                        pool.add(f)
+            self._ffac = sorted(pool)
+        return self._ffac
+
     def budget(self, tier):
         q = tier == 'quick'
         nf = len(self.fragile())
@@ -295,7 +323,8 @@ class C14(Check):
             'rebin_int': 2400 if q else 36000,
             'rebin_fragile': 4 * nf if q else 24 * nf,
             'rebin_grid1d': 1000 if q else 39 * 69 * 2,
-            'rebin_reject': 1200 if q else 12000,
+            'rebin_bigfactor': 900 if q else 199 * 2 * 12,
+            'rebin_reject': 1600 if q else 16000,
             'stale_sequence': 1800 if q else 24000,
         }
 
@@ -321,6 +350,10 @@ class C14(Check):
         N2 = 10 if self.tier == 'quick' else 16
         if cls in ('smooth_plain', 'smooth_trunc'):
             n = rng.randint(1, 8) if rng.random() < 0.35 else rng.randint(1, N)
+            if rng.random() < 0.06:
+                n = rng.choice([1, 2])
+            elif rng.random() < 0.03:
+                n = rng.randint(200, 600)                 # sizes are not always small
             m = rng.random()
             if m < 0.15:
                 w = n
@@ -332,6 +365,10 @@ class C14(Check):
                 w = rng.randint(1, n)
             if rng.random() < 0.03:
                 w = 0                                     # even -> made odd = 1: nothing to smooth
+            elif cls == 'smooth_plain' and rng.random() < 0.05:
+                # width beyond the array: no interior point exists, so without edge truncation every point is an
+                # untouched edge point (with truncation IDL refuses and the property's domain ends at w <= N)
+                w = n + rng.choice([1, 2, 3, n, 2 * n + 3])
             dt = rng.choice(['f8', 'f8', 'f4'])
             return {'fn': 'smooth', 'dtype': dt, 'x': _inject(rng, _floats(rng, n, dt), ['+inf', '-inf', 'nan'], 0.15),
                     'w': w, 'trunc': cls == 'smooth_trunc', 'kwform': rng.random() < 0.5,
@@ -340,6 +377,10 @@ class C14(Check):
             dt = rng.choice(['f8', 'f8', 'f4'])
             if rng.random() < 0.7:
                 shape = [rng.randint(1, 8) if rng.random() < 0.4 else rng.randint(1, N)]
+                if rng.random() < 0.06:
+                    shape = [rng.choice([1, 2])]
+                elif rng.random() < 0.03:
+                    shape = [rng.randint(200, 1000)]
             else:
                 shape = [rng.randint(1, 8), rng.randint(1, 8)]
             return {'fn': 'median', 'dtype': dt, 'shape': shape,
@@ -348,6 +389,10 @@ class C14(Check):
         if cls == 'median_run1d':
             dt = rng.choice(['f8', 'f8', 'f4'])
             n = rng.randint(1, 9) if rng.random() < 0.35 else rng.randint(1, N)
+            if rng.random() < 0.06:
+                n = rng.choice([1, 2])
+            elif rng.random() < 0.03:
+                n = rng.randint(200, 500)
             ws = list(range(1, n + 1, 2))
             w = ws[-1] if rng.random() < 0.15 else rng.choice(ws)
             return {'fn': 'run1d', 'dtype': dt, 'x': _inject(rng, _floats(rng, n, dt), ['+inf', '-inf'], 0.15), 'w': w}
@@ -398,6 +443,35 @@ class C14(Check):
             dt = rng.choice(['f8', 'i4', 'f4'])
             x = _ints(rng, d0, dt, 'full') if dt[0] == 'i' else _floats(rng, d0, dt, 'normal')
             return {'fn': 'rebin', 'dtype': dt, 'shape': [d0], 'd': [d0 * fac], 'modes': 'E', 'sample': sample, 'x': x}
+        if cls == 'rebin_bigfactor':
+            pool = self.fragile_factors()
+            if self.tier == 'quick':
+                if i % 3 < 2:                      # every pool factor in both directions, then a spread over 2..200
+                    j = (i // 3) * 2 + i % 3
+                    f, shrink = pool[(j // 2) % len(pool)], j % 2 == 0
+                else:
+                    f, shrink = rng.randint(2, 200), rng.random() < 0.5
+            else:                                  # thorough: every factor 2..200, both directions, repeatedly
+                f, shrink = 2 + i % 199, (i // 199) % 2 == 0
+            m = 1 + (i // 7) % 4 if self.tier == 'quick' else rng.randint(1, 4)
+            nd = rng.choice([1, 1, 2, 3])
+            k = rng.randrange(nd)
+            shape, d = [], []
+            for ax in range(nd):
+                if ax == k:
+                    shape.append(f * m if shrink else m)
+                    d.append(m if shrink else f * m)
+                    continue
+                base = rng.randint(1, 3)
+                mo = rng.choice(MODES)
+                g = rng.randint(2, 3)
+                shape.append(base * g if mo == 'S' else base)
+                d.append(base * g if mo == 'E' else base)
+            dt = rng.choice(['f8', 'f8', 'f4', 'i4', 'u1', 'i2'])
+            x = _ints(rng, _prod(shape), dt) if dt[0] in 'iu' else _floats(rng, _prod(shape), dt, 'normal')
+            return {'fn': 'rebin', 'dtype': dt, 'shape': shape, 'd': d, 'modes': '', 'sample': rng.random() < 0.4,
+                    'x': x, 'bigfactor': [f, 'shrink' if shrink else 'expand'],
+                    'flagform': rng.choice(['bool', 'bool', 'int', 'npbool'])}
         if cls == 'rebin_reject':
             return self._gen_reject(rng, i)
         raise KeyError(cls)
@@ -543,7 +617,7 @@ class C14(Check):
                 if rng.random() < 0.3:
                     c['dtype'] = 'f4' if c['dtype'] == 'f8' else 'f8'
                 c['x'] = _floats(rng, len(c['x']), c['dtype'])       # same sizes / widths, other data
-                if c['fn'] == 'smooth' and rng.random() < 0.6:
+                if c['fn'] == 'smooth' and c['w'] <= len(c['x']) and rng.random() < 0.6:   # truncation: domain w <= N
                     c['trunc'] = not c['trunc']
                 if c['fn'] == 'median' and rng.random() < 0.6:
                     c['even'] = not c['even']
@@ -591,7 +665,7 @@ class C14(Check):
 
     def _gen_reject(self, rng, i):
         nd = rng.randint(1, 3)
-        why = ['expand', 'shrink', 'rank+', 'rank-', 'expand', 'shrink'][i % 6]
+        why = ['expand', 'shrink', 'rank+', 'rank-', 'expand', 'shrink', 'shrink-near', 'expand-near'][i % 8]
         shape, d = [], []
         for _ in range(nd):
             base = rng.randint(1, 6)
@@ -615,6 +689,19 @@ class C14(Check):
             cands = [c for c in range(2, d0) if d0 % c != 0]
             shape[k] = d0
             d[k] = rng.choice(cands)
+        elif why in ('shrink-near', 'expand-near'):
+            # almost integral ratios at large sizes: 98 -> 3, 99 -> 2, 197 -> 2, 3 -> 148 ...
+            pool = self.fragile_factors()
+            f = rng.choice(pool) if rng.random() < 0.6 else rng.randint(2, 200)
+            m = rng.randint(2, 4)
+            big = f * m + rng.choice([r for r in range(-(m - 1), m) if r != 0])
+            if rng.random() < 0.3:
+                big, m = f * m, m + 1 if (f * m) % (m + 1) else m + 2
+                while big % m == 0:
+                    m += 1
+            if big <= m or big % m == 0:
+                big = f * m + 1
+            shape[k], d[k] = (big, m) if why == 'shrink-near' else (m, big)
         elif why == 'rank+':
             extra = rng.choice([1, 1, 2, rng.randint(1, 5)])
             pos = rng.choice([0, len(d)])
@@ -746,6 +833,12 @@ class C14(Check):
         W = R.odd_width(w)
         if w == 0:
             out.count('smooth_width_0')
+        if len(val) <= 2:
+            out.count('smooth_length_1_or_2')
+        if len(val) >= 200:
+            out.count('smooth_length_ge_200')
+        if w > len(val):
+            out.count('smooth_width_beyond_n_all_points_untouched')
         if _nonfinite(case['x']) and W >= 3:
             out.count('smooth_finite_windows_next_to_nonfinite_values',
                       sum(1 for v, k in zip(val, kind) if k != 'same' and v == v and abs(v) != float('inf')))
@@ -786,6 +879,10 @@ class C14(Check):
         mag = max(abs(lo), abs(hi))
         if _nonfinite(case['x']):
             out.count('median_inputs_with_infinities')
+        if x0.size <= 2:
+            out.count('median_length_1_or_2')
+        if x0.size >= 200:
+            out.count('median_length_ge_200')
         if how == 'even-mean' and (exp != exp or abs(exp) == float('inf')):
             # mean of the two middle values when one is infinite: that infinity, or NaN for -inf and +inf
             out.expect((g != g) if exp != exp else g == exp, 'median-even-mean',
@@ -856,6 +953,10 @@ class C14(Check):
         exp, inner = R.running_median_1d([float(v) for v in x0], case['w'])
         n = self._cmp_running(out, r, x0, exp, inner, 'run1d', case['w'])
         out.count('run1d_interior_points', n)
+        if x0.size <= 2:
+            out.count('run1d_length_1_or_2')
+        if x0.size >= 200:
+            out.count('run1d_length_ge_200')
         if _nonfinite(case['x']) and n:
             out.count('run_inputs_with_infinities')
         if case['w'] >= 3 and n:
@@ -935,6 +1036,8 @@ class C14(Check):
         elif case['dtype'][0] == 'u':
             out.count('uniq_unsigned_arrays')
         out.count('uniq_runs', len(exp))
+        if n <= 2:
+            out.count('uniq_length_1_or_2')
         if n >= 2 and not (x.flags.c_contiguous and (idx is None or iv.flags.c_contiguous)):
             out.count('uniq_noncontiguous_calls')
         if r2 is not None:
@@ -1033,6 +1136,16 @@ class C14(Check):
         out.count('rebin_combo_' + modes)
         if 'E' in modes and 'S' in modes:
             out.count('rebin_mixed_expand_and_shrink')
+        for k in range(x0.ndim):
+            big, small = max(d[k], x0.shape[k]), min(d[k], x0.shape[k])
+            if big // small >= 49:
+                out.count('rebin_shrink_factor_ge_49' if d[k] < x0.shape[k] else 'rebin_expand_factor_ge_49')
+                if x0.ndim > 1:
+                    out.count('rebin_factor_ge_49_in_2d_or_3d')
+                if dt[0] in 'iu':
+                    out.count('rebin_factor_ge_49_integer_dtype')
+                if big // small in self.fragile_factors() and d[k] < x0.shape[k]:
+                    out.count('rebin_shrink_by_float_fragile_factor' + ('_sample' if sample else '_mean'))
         if not x.flags.c_contiguous and modes.strip('K'):
             out.count('rebin_noncontiguous_resized_calls')
         if lay != 'contig':
@@ -1053,6 +1166,8 @@ class C14(Check):
             out.checks += 1
             out.count('rebin_valueerror_rank' if rank else 'rebin_valueerror_nonintegral')
             out.count('rebin_reject_' + case['why'])
+            if max(max(shape), max(d)) >= 49 and not rank:
+                out.count('rebin_valueerror_nonintegral_sizes_ge_49')
         except Exception as e:
             out.fail(clause, 'rebin%r -> %r raised %s instead of ValueError: %s' % (tuple(shape), d, type(e).__name__, e))
         else:
